@@ -441,8 +441,15 @@ def path_conditions(stmt: ast.AST, func: ast.AST):
                     else_exit = bool(prev.orelse) and _always_exits(prev.orelse)
                     if body_exit and not else_exit:
                         conds.append((prev.test, False, prev, "prior"))
+                        # (the arm that does not always leave may itself leave on some paths - an elif chain of early returns)
+                        fall = _falls_through(prev.orelse)
+                        if fall is not True and fall is not False:
+                            conds.append((fall, True, prev, "prior"))
                     elif else_exit and not body_exit:
                         conds.append((prev.test, True, prev, "prior"))
+                        fall = _falls_through(prev.body)
+                        if fall is not True and fall is not False:
+                            conds.append((fall, True, prev, "prior"))
                     elif not body_exit and not else_exit:
                         # an if / elif / else chain some of whose arms leave: control gets past it under the disjunction of
                         # the arms that fall through
